@@ -10,6 +10,8 @@ RES = sys.argv[1]
 rows = []
 for d in sorted(glob.glob(ROOT + "/seeded/*/")):
     name = os.path.basename(d.rstrip("/"))
+    if not os.path.exists(os.path.join(d, "patch.diff")):
+        continue
     meta = {"seed": name}
     if name.startswith("revert-"):
         meta["kind"] = "reverted fix"
